@@ -1601,3 +1601,42 @@ def m_jsstring_len(ex, st, call):
             return ex.ret(st, call, Bool(s.n == 0))
         return ex.ret(st, call, usize(s.n))
     return None
+
+
+@model(r'^slice::binary_search_by_key$')
+def m_binary_search_by_key(ex, st, call):
+    r, keyref, f = call.args
+    v = deref(ex, st, r)
+    if not isinstance(v, VecV):
+        return None
+    target = deref(ex, st, keyref)
+    items = list(v.items)
+
+    def go(s, k, keys):
+        if k == len(items):
+            tv = ex.concrete_int(target.e)
+            ks = [ex.concrete_int(x.e) for x in keys]
+            if tv is None or any(x is None for x in ks):
+                unmodelled('binary_search_by_key with symbolic keys')
+            if any(ks[i] >= ks[i + 1] for i in range(len(ks) - 1)):
+                # precondition of binary search: the slice is sorted by key.  Unsorted input is a finding for the caller.
+                from .symex import PathEnd
+                return [PathEnd('panic', s, None, 'binary_search_by_key on a slice that is not strictly sorted by key: %r' % ks)]
+            for i, x in enumerate(ks):
+                if x == tv:
+                    return ex.ret(s, call, EnumV('Result', 0, {0: {0: Int(z3.BitVecVal(i, 64), False)}}))
+            ins = sum(1 for x in ks if x < tv)
+            return ex.ret(s, call, EnumV('Result', 1, {1: {0: Int(z3.BitVecVal(ins, 64), False)}}))
+        return ex.invoke_callable(s, f, [Ref(r.addr, r.path + (('i', k),))], lambda e_, s2, val: go(s2, k + 1, keys + [val]))
+    return go(st, 0, [])
+
+
+@model(r'^Option::is_none_or$')
+def m_is_none_or(ex, st, call):
+    o, f = call.args
+    return two_way(ex, st, enum_is(o, 1),
+                   lambda s: ex.invoke_callable(s, f, [opt_payload_or_lazy(ex, s, call, o, 1)], lambda e_, s2, v: e_.ret(s2, call, v)),
+                   lambda s: ex.ret(s, call, Bool(True)))
+
+
+_prioritise({'m_is_none_or'})
